@@ -332,7 +332,23 @@ func c01Journey(rep *explore.Report, w *world.World, r int32, s1, s2 []int32, po
 		cur.Spec.Template.Spec.Containers[0].Image = gen.Image(2)
 		cur.Generation++
 	}
+	cur.ResourceVersion += "1"
+	before := w.S.API.Sets["web"]
 	w.S.PutSet(cur, 0)
+	// the edit reaches the controller as an update event of its set informer; an annotation-only edit does not move
+	// metadata.generation, and the controller must wake up for it all the same
+	if len(w.SetHandlers) == 1 && fmt.Sprint(s1) != fmt.Sprint(s2) {
+		q := &recQueue{}
+		w.Ctrl.VerifSetQueue(q)
+		w.FillCaches()
+		w.SetHandlers[0].OnUpdate(before, cur)
+		if !keysOf(q.log)[world.NS+"/web"] {
+			rep.Violation("C01", "slot-edit-not-noticed", fmt.Sprintf("%s: the update event carrying the new delete-slots value (generation %d -> %d) does not enqueue the set, so the new desired ordinals are never acted on", label, before.Generation, cur.Generation), func() interface{} {
+				return map[string]interface{}{"kind": "c01-journey", "case": label, "queue_log": q.log}
+			})
+			return
+		}
+	}
 	if !settle("with " + fmt.Sprint(s2)) {
 		return
 	}
@@ -366,7 +382,7 @@ func init() {
 	register("c01", "desired ordinals: helpers and controller vs reference (bounded-exhaustive inputs)", func([]string) int {
 		thorough := explore.Tier() == "thorough"
 		rep := explore.NewReport("C01", "model_checking")
-		rep.Rule = "bounded-exhaustive inputs: replicas 0..6 (thorough 0..8) x {annotation absent, nil annotation map, 18 malformed/edge values, every subset of {-2..8} with <=4 (thorough <=5) members and int32-extreme sets, each in canonical/permuted/duplicated/whitespace encodings}; every helper compared with the reference model (first r non-negative integers not listed); the real controller run on an empty cluster under Parallel (one reconcile) and OrderedReady (reconcile/kubelet loop to quiescence) for every input with distinct slot sets; plus edit journeys on the real controller: replicas 0..3, slots s1 then s2 over all pairs of subsets of {0..3} with <=2 members (s2 may remove the annotation), with and without a template edit, both policies, each phase run to quiescence: the pods must end at exactly desired(r, s2); and sets that own a healthy pod named <set>-(2^32+k), which is no member, must still create ordinal k. Non-trivial = the annotation denotes at least one slot."
+		rep.Rule = "bounded-exhaustive inputs: replicas 0..6 (thorough 0..8) x {annotation absent, nil annotation map, 18 malformed/edge values, every subset of {-2..8} with <=4 (thorough <=5) members and int32-extreme sets, each in canonical/permuted/duplicated/whitespace encodings}; every helper compared with the reference model (first r non-negative integers not listed); the real controller run on an empty cluster under Parallel (one reconcile) and OrderedReady (reconcile/kubelet loop to quiescence) for every input with distinct slot sets; plus edit journeys on the real controller: replicas 0..3, slots s1 then s2 over all pairs of subsets of {0..3} with <=2 members (s2 may remove the annotation), with and without a template edit, both policies, each phase run to quiescence, the edit delivered as an update event through the real set handler (which must enqueue the set although an annotation-only edit leaves metadata.generation alone): the pods must end at exactly desired(r, s2); and sets that own a healthy pod named <set>-(2^32+k), which is no member, must still create ordinal k. Non-trivial = the annotation denotes at least one slot."
 		rep.Assumptions = []string{"for values that are not a JSON list of int32 the reference reads 'no slots' (the annotation codec's own contract)", "replicas near MaxInt32 are out of bound (the reconciler allocates a slice of that length)"}
 		var inputs []c01Input
 		c01Inputs(thorough, func(in c01Input) { inputs = append(inputs, in) })
